@@ -69,6 +69,10 @@ pub fn probe_program(variant: u64) -> String {
     s.push_str("  gif: if(true, 1, 2);\n  gmix: mix(red, blue);\n  gpct: percentage(0.5);\n");
     s.push_str("  fe: meta.function-exists(\"floor\");\n  gfe: meta.global-variable-exists(\"pi\");\n");
     s.push_str("  div: math.div(1, 3);\n");
+    // one call of every function an attacking library could try to replace
+    s.push_str("  m1: math.ceil(1.5); m2: math.round(1.4); m3: meta.inspect(map.keys((a: 1))); m4: meta.inspect(map.values((a: 1)));\n");
+    s.push_str("  m5: string.length(\"abc\"); m6: list.separator(1 2); m7: color.green(#123456);\n");
+    s.push_str("  m8: meta.inspect(selector.parse(\".a\")); m9: meta.inspect(selector.simple-selectors(\".a.b\")); m10: meta.inspect(1 2);\n");
     s.push_str("}\n");
     s
 }
@@ -163,6 +167,50 @@ pub fn generated_attack(rng: &mut Rng) -> (String, String) {
         _ => format!("@use \"sass:{m}\";\n@mixin m {{ @content; }}\n@include m {{ x {{ y: {m}.{f}({arg}); }} }}\n{m}.$nope: 1;\n"),
     };
     (format!("gen-attack-{t}-{m}"), src)
+}
+
+/// A library that defines members named like built-in ones.
+fn hijack_lib() -> String {
+    let mut s = String::from("$pi: 3;\n$e: 2;\n$epsilon: 1;\n");
+    for (_, f, g) in MEMBERS {
+        s.push_str(&format!("@function {f}($a...) {{ @return lib-{f}; }}\n@function {g}($a...) {{ @return lib-{g}; }}\n"));
+    }
+    s.push_str("@function round($a...) { @return lib-round; }\n@mixin load-css($a...) { lib { css: loaded; } }\n");
+    s
+}
+
+/// Compositional attacks: 1-4 header statements drawn from every way a file
+/// can name a built-in module or a library shadowing one, in any order, then a
+/// body that uses some members.  Many of these fail with an error; all of them
+/// must give the same result everywhere and leave no trace.
+pub fn composed_attack(rng: &mut Rng) -> Item {
+    let mut src = String::new();
+    let n = 1 + rng.usize(4);
+    let mut tags = vec![];
+    for k in 0..n {
+        let (m, f, _) = *rng.pick(&MEMBERS);
+        let t = rng.below(12);
+        tags.push(format!("{t}{}", &m[..2]));
+        src.push_str(&match t {
+            0 => format!("@forward \"sass:{m}\";\n"),
+            1 => format!("@forward \"sass:{m}\" as p{k}-*;\n"),
+            2 => format!("@forward \"sass:{m}\" show {f};\n"),
+            3 => format!("@forward \"sass:{m}\" hide {f};\n"),
+            4 => "@forward \"lib\";\n".to_string(),
+            5 => format!("@forward \"lib\" as l{k}-*;\n"),
+            6 => format!("@use \"sass:{m}\";\n"),
+            7 => format!("@use \"sass:{m}\" as *;\n"),
+            8 => format!("@use \"sass:{m}\" as n{k};\n"),
+            9 => "@use \"lib\";\n".to_string(),
+            10 => format!("@use \"lib\" as u{k};\n"),
+            _ => "@use \"lib\" as *;\n".to_string(),
+        });
+    }
+    let (m, f, g) = *rng.pick(&MEMBERS);
+    src.push_str(&format!("a {{ b: {f}(1); c: {g}(1); d: {m}-{f}; }}\n"));
+    let mut it = Item::simple(&format!("composed-{}", tags.join("-")), &src);
+    it.files.insert("_lib.scss".to_string(), hijack_lib());
+    it
 }
 
 /// Multi-file items: modules that shadow or forward built-ins.
@@ -261,8 +309,12 @@ pub fn draw_item(rng: &mut Rng) -> Item {
             Item::simple(n, s)
         }
         4 => {
-            let (n, s) = generated_attack(rng);
-            Item::simple(&n, &s)
+            if rng.chance(1, 2) {
+                composed_attack(rng)
+            } else {
+                let (n, s) = generated_attack(rng);
+                Item::simple(&n, &s)
+            }
         }
         5 => {
             let m = module_items();
